@@ -51,6 +51,7 @@ type Engine struct {
 	echo    net.Listener
 	refuse  string
 	held    []net.Conn
+	live    []net.Conn // the held connections that are being read (op "hold")
 	lowFD   int
 	listens map[string]string
 }
@@ -120,6 +121,7 @@ func (e *Engine) stopChild() {
 		c.Close()
 	}
 	e.held = nil
+	e.live = nil
 	if e.child != nil && e.child.Process != nil {
 		e.child.Process.Kill()
 		<-e.exited
@@ -240,6 +242,8 @@ func (e *Engine) Run(ops []string, res *report.Result) *report.Failure {
 				c.Close()
 			}
 			e.held = nil
+			e.live = nil
+			e.live = nil
 			// clean slate for the next history
 			if ps, ok := e.proxies(); ok {
 				for _, p := range ps {
@@ -305,6 +309,8 @@ func (e *Engine) Run(ops []string, res *report.Result) *report.Failure {
 				c.Close()
 			}
 			e.held = nil
+			e.live = nil
+			e.live = nil
 			time.Sleep(200 * time.Millisecond)
 		case "echo":
 			addr := listenOf(f[1])
@@ -343,6 +349,18 @@ func (e *Engine) Run(ops []string, res *report.Result) *report.Failure {
 			res.Count(fmt.Sprintf("toxic:%s:%d", f[4], s))
 		case "untoxic":
 			e.api("DELETE", "/proxies/"+f[1]+"/toxics/"+f[2], "", 30*time.Second)
+		case "retoxic":
+			// update an existing toxic (its stubs are restarted on every live connection)
+			s, _ := e.api("POST", "/proxies/"+f[1]+"/toxics/"+f[2], fmt.Sprintf(`{"attributes":%s}`, strings.Join(f[3:], " ")), 30*time.Second)
+			res.Count(fmt.Sprintf("retoxic:%d", s))
+		case "more":
+			// more data on every connection that is being kept open
+			n, _ := strconv.Atoi(f[1])
+			for _, c := range e.live {
+				c.SetWriteDeadline(time.Now().Add(500 * time.Millisecond))
+				c.Write(bytes.Repeat([]byte{0x6d}, n))
+			}
+			time.Sleep(20 * time.Millisecond)
 		case "reset":
 			e.api("POST", "/reset", "", 30*time.Second)
 		case "raw":
@@ -359,7 +377,7 @@ func (e *Engine) Run(ops []string, res *report.Result) *report.Failure {
 			}
 			go e.api(f[1], f[2], body, 40*time.Second)
 			time.Sleep(300 * time.Millisecond)
-		case "traffic", "rst", "stall", "halfclose":
+		case "traffic", "rst", "stall", "halfclose", "hold":
 			addr := listenOf(f[1])
 			if addr == "" {
 				res.Count("skipped:no-proxy")
@@ -406,6 +424,12 @@ func (e *Engine) Run(ops []string, res *report.Result) *report.Failure {
 				e.held = append(e.held, c)
 			case "stall":
 				e.held = append(e.held, c) // never read, kept open
+			case "hold":
+				// kept open and read (whatever comes back is discarded): a live connection that
+				// later operations act on
+				e.held = append(e.held, c)
+				e.live = append(e.live, c)
+				go io.Copy(io.Discard, c)
 			}
 		default:
 			return nil
